@@ -242,7 +242,7 @@ pub fn check_spec(ctx: &Ctx, rep: &mut Report, fx: Option<&Fixture>, n: u64, d: 
 
 pub fn check(ctx: &Ctx, rep: &mut Report) {
     let fx = Fixture::new();
-    let total = ctx.size(5_000, 1_600_000) / ctx.nshards;
+    let total = ctx.size(5_000, 640_000) / ctx.nshards;
     for k in 0..total {
         if ctx.wants(k) {
             for d in Dialect::ALL {
